@@ -24,7 +24,10 @@ META = dict(
 )
 OPTS = dict(quick=dict(task_timeout=300, ob_ms=20000), thorough=dict(task_timeout=1500, ob_ms=40000))
 
-QUERIES = ["cov", "cor", "hessian", "asymmetric", "profile", "contour", "error_band", "report", "result_dict", "to_file", "errors", "cost", "gof"]
+QUERIES = ["cov", "cor", "hessian", "asymmetric", "profile", "profile-cl", "contour", "error_band", "report", "result_dict", "to_file", "errors", "cost", "gof"]
+# explicit profile bounds: the arrow / confidence-level bookkeeping needs 'constrained minimum >= minimum', which the
+# adversarial stubs do not promise; exercised with the real backends only (numeric/*)
+NUMERIC_ONLY = ["profile-low-high"]
 
 
 def setup_symbolic():
@@ -44,6 +47,15 @@ def _query(cx, fit, q):
         return fit.asymmetric_parameter_errors
     if q == "profile":
         return fit._fitter.profile("a", sigma=1.0, size=3)[0]
+    if q == "profile-cl":
+        # bounds from a confidence level: the adapters scan for the crossing points first
+        return fit._fitter.profile("a", cl=0.9, size=3)[0]
+    if q == "profile-low-high":
+        v0, e0 = fit.parameter_values[0], fit.parameter_errors[0]
+        return fit._fitter.profile("a", low=v0 - 3 * e0, high=v0 + 3 * e0, size=3)[0]
+    if q == "contour-beacon":
+        c = fit._fitter.contour("a", "b", sigma=1.0, algorithm="beacon")
+        return None if c is None else c.xy_points
     if q == "contour":
         c = fit._fitter.contour("a", "b", sigma=1.0)
         return None if c is None else c.xy_points
@@ -80,7 +92,7 @@ def _state(fit):
 def sc_queries(cx, minimizer, seq, variant):
     fixed = ("b",) if variant == "fixed" else ()
     limits = ("a",) if variant == "limited" else ()
-    pb = B.build(cx, "xy", minimizer, sources=[("SA", "y", "data")], fixed=fixed if "contour" not in seq and "profile" not in seq else (), limits=limits, rho=0)
+    pb = B.build(cx, "xy", minimizer, sources=[("SA", "y", "data")], fixed=fixed if not any(q_.startswith(("contour", "profile")) for q_ in seq) else (), limits=limits, rho=0)
     pb.assume_pd()
     cx.assume(pb.x[0] != pb.x[1])
     fit = pb.fit
@@ -133,8 +145,8 @@ def sc_numeric(cx, minimizer, variant):
     f.do_fit()
     s0 = _state(f)
     sig = np.maximum(np.array(s0["errors"]), 1e-12)
-    for q in QUERIES:
-        for rep in (0, 1):
+    for q in QUERIES + NUMERIC_ONLY + (["contour-beacon"] if (minimizer == "scipy" and variant == "plain") else []):
+        for rep in (0, 1) if q != "contour-beacon" else (0,):
             try:
                 r = _query(cx, f, q)
             except NotImplementedError:
